@@ -38,6 +38,12 @@ def _progs_for(prop, tier, seed):
             progs += gen.random_programs(1500 + seed, 40, prefix="rndb", max_arity=2, max_body=3)
             progs += gen.random_programs(1700 + seed, 10, prefix="rndc", max_arity=3, max_body=2)
         add(progs, "run", ["mismatch", "nonterm", "panic"])
+        if not q:
+            # a larger universe (4 constants per column) for the binary-relation programs
+            big = [p for p in gen.c01_curated() if p.name in ("tc", "tc_linear", "tc_reverse", "same_gen", "mutual2", "join_cond2", "two_strata", "binder_before_join")]
+            for p in big:
+                p.name += "__d4"
+            add(big, "run", ["mismatch", "nonterm", "panic"], D=4)
     elif prop == "C05":
         progs = gen.c01_curated() + gen.random_programs(2000 + seed, 4 if q else 30)
         add(progs, "run", ["duplicate", "mismatch", "nonterm", "panic"], dup=True)
@@ -134,6 +140,8 @@ def _worker(args):
             mod = json.load(f)
         sc = Sc.Scenario(**job["scenario"])
         sc.kinds = job["kinds"]
+        Ck.CROSS_CHECK["on"] = (tier == "thorough")
+        Ck.CROSS_CHECK["n"] = 0
         V = 3 if tier == "quick" else 12
         out = Ck.check_program(cp, mod, prog, sc, _r.Random(seed * 7919 + jidx), V=V)
         res = {"program": prog.name, "scenario": sc.describe(), "status": out.status, "detail": out.detail,
@@ -287,7 +295,8 @@ def check(prop, tier, only=None):
         "functions_encoded": ["<Program>::run / run_timeout / update_indices_priv / Default::default as generated by ascent_macro for every corpus program (expanded text, regenerated from /repo on every run)"],
         "bounds": "universe D=3 constants per input column; all 2^n input databases (n = input_vars per program, see samples); fixpoint loops unrolled adaptively until the solver proves no database reaches the next iteration (K_max=64, otherwise an unwinding obligation is reported); row multiplicity <= MAXM (2..4, overflow obligation discharged by the solver)",
         "solver_time_s": round(solver_s, 2),
-        "solvers": ["z3 (python API, SolverFor('QF_FD'))"],
+        "solvers": ["z3 (python API) — verdict of every query", "cvc5 (thorough tier: every query re-decided, any disagreement = inconclusive)"],
+        "cvc5_cross_checked": sum((results[i]["stats"].get("cvc5_cross_checked") or 0) for i in keep),
         "corpus_build": cp.stats,
         "repo_fingerprint": C.repo_fingerprint(),
         "exhaustive": False,
